@@ -666,8 +666,7 @@ func c15SpecStep(st *c15Step, ss ast.Schemas, q c15Q, touched map[string]bool) s
 			}
 			v, isStr := o.Type.Scalar.Value.(string)
 			if !isStr {
-				status = "conflict"
-				return o, true
+				return o, true // a `string` scalar holding a constant of another type is not a string constant
 			}
 			touch(o)
 			n := ast.NewEnum([]ast.EnumValue{{Type: ast.String(), Name: v, Value: v}})
